@@ -93,6 +93,9 @@ def load_known_findings() -> list[dict]:
     return list(data.get("findings", []))
 
 
+CURRENT = None  # the run being built (so that findings survive an analysis error in a later rule)
+
+
 class Run:
     """Accounting for one invocation of one property's check."""
 
@@ -208,6 +211,10 @@ class Run:
 
     def finish(self, replay_filter: str | None = None) -> int:
         new, matched, short = self.classify()
+        if getattr(self, "aborted", None):
+            # a later rule could not be evaluated; the floors of rules that never ran mean nothing, but what the
+            # rules that did run found stands
+            short = [f"analysis incomplete: {self.aborted}"]
 
         wall = time.time() - self.t0
         total = sum(st.instances for st in self.rules.values())
